@@ -60,7 +60,7 @@ struct Operand
 
 struct Stats
 {
-    uint64_t trials = 0, calls = 0, alias = 0, noncanon_in = 0, noncanon_out = 0, regalias = 0, third_calls = 0, exact_calls = 0, huge_calls = 0, huge_unavailable = 0, bcast_alias = 0;
+    uint64_t trials = 0, calls = 0, alias = 0, noncanon_in = 0, noncanon_out = 0, regalias = 0, third_calls = 0, exact_calls = 0, huge_calls = 0, huge_unavailable = 0, bcast_alias = 0, same_base = 0;
     uint64_t stride_in[9] = {0}, stride_out[9] = {0}, idx_in[IK_N] = {0}, idx_out[IK_N] = {0};
     uint64_t shape_in[6] = {0}, shape_out[6] = {0};
 };
@@ -253,6 +253,7 @@ static void run_trial(Ctx &cx, const c17::Ov &ov, uint64_t tseed, vf::Report &re
         if (is_mem(ov.a) && is_mem(ov.b)) t.alias = 1 + (int)r.below(2);
         else t.alias = is_mem(ov.a) ? 1 : 2;
     }
+    bool same_base = false;
     Operand &ax = t.alias == 2 ? t.b : t.a;  // aliased input (if any)
     if (t.alias)
     {
@@ -279,6 +280,24 @@ static void run_trial(Ctx &cx, const c17::Ov &ov, uint64_t tseed, vf::Report &re
         place(t.c, L, true, r);  finish_placement(t.c, L, r);
         place(t.a, L, false, r); finish_placement(t.a, L, r);
         place(t.b, L, false, r); finish_placement(t.b, L, r);
+        // one trial in eight of the overloads with two memory inputs: both inputs are read from the SAME array (same base pointer);
+        // with two index lists, b's list is half of the time a permutation / the reversal of a's
+        if (is_mem(t.a.sh) && is_mem(t.b.sh) && (tseed & 7) == 4)
+        {
+            same_base = true;
+            if (t.a.sh == c17::INDEX && t.b.sh == c17::INDEX && r.coin())
+            {
+                int perm[8];
+                for (int k = 0; k < L; k++) perm[k] = r.coin() ? L - 1 - k : k;
+                if (r.coin()) for (int k = L - 1; k > 0; k--) std::swap(perm[k], perm[r.below(k + 1)]);
+                for (int k = 0; k < L; k++) t.b.pos[k] = t.a.pos[perm[k]];
+                t.b.ikind = IK_ALIASED;
+            }
+            t.b.maxpos = 0;
+            for (int k = 0; k < L; k++) t.b.maxpos = std::max(t.b.maxpos, t.b.pos[k]);
+            uint64_t mx = std::max(t.a.maxpos, t.b.maxpos), tl = std::max(t.a.tail, t.b.tail), ld = std::max(t.a.lead, t.b.lead);
+            t.a.lead = t.b.lead = ld; t.a.maxpos = t.b.maxpos = mx; t.a.tail = t.b.tail = tl;
+        }
     }
 
     uint64_t sent[2];
@@ -292,6 +311,7 @@ static void run_trial(Ctx &cx, const c17::Ov &ov, uint64_t tseed, vf::Report &re
         Operand &o = *ops[i];
         if (!is_mem(o.sh)) continue;
         if (i > 0 && t.alias == i) { o.ar = t.c.ar; continue; }
+        if (i == 2 && same_base) { o.ar = t.a.ar; continue; }
         o.ar = cx.pool[i][arena_class(o)].get();
         o.ar->reset(sent[0]);
     }
@@ -347,6 +367,7 @@ static void run_trial(Ctx &cx, const c17::Ov &ov, uint64_t tseed, vf::Report &re
         if (o.sh == c17::STRIDE && o.sidx >= 0) st.stride_in[o.sidx]++;
         if (o.sh == c17::INDEX && o.ikind >= 0) st.idx_in[o.ikind]++;
     }
+    if (same_base) st.same_base++;
     if (st.trials == 1) rep.sample(std::string(ov.family), describe_trial(t, tseed));
 
     uint64_t out[3][8];
@@ -366,6 +387,9 @@ static void run_trial(Ctx &cx, const c17::Ov &ov, uint64_t tseed, vf::Report &re
                 else if (o.sh == c17::REG) { for (int k = 1; k < L; k++) o.val[k] = cx.g.pick(r); changed = true; }
             }
             if (!changed) break;
+            if (same_base) // the two inputs share cells: what each lane reads is what is in the array after both were changed
+                for (int i = 1; i < 3; i++)
+                    for (int k = 0; k < L; k++) ops[i]->val[k] = ops[i]->ar->cells[ops[i]->lead + ops[i]->pos[k]];
             for (int k = 0; k < L; k++)
             {
                 uint64_t av = t.a.val[k], bv = t.b.sh == c17::NONE ? 0 : t.b.val[k];
@@ -608,6 +632,7 @@ static void flush_stats(const c17::Ov &ov, const Stats &st, vf::Report &rep)
     rep.cls("mode:third_call_same_addresses_changed_contents", st.third_calls);
     rep.cls("mode:inputs_of_exact_extent_before_unmapped_page_or_redzone", st.exact_calls);
     if (st.bcast_alias) rep.cls("mode:broadcast_scalar_is_an_lvalue_in_the_result_array", st.bcast_alias);
+    if (st.same_base) rep.cls("mode:both_inputs_read_from_the_same_array", st.same_base);
     if (st.huge_calls) rep.cls("mode:very_large_stride_or_index(sparse_mapping)", st.huge_calls);
     if (st.huge_unavailable) rep.cls("mode:very_large_stride_unavailable(mmap_refused)", st.huge_unavailable);
     rep.cls("values:trials_with_noncanonical_input", st.noncanon_in);
